@@ -643,7 +643,9 @@ func c09W4(l *core.Ledger, r *rt) {
 				return
 			}
 			v, _ := condOf(ifi)
-			if sx.All(sx.Origins(v), func(o sx.Origin) bool { return o.Kind == sx.KField && o.Field != nil && o.Field.Name() == "ServerStream" }) {
+			if sx.All(sx.Origins(v), func(o sx.Origin) bool {
+				return o.Kind == sx.KField && o.Field != nil && o.Field.Name() == "ServerStream"
+			}) {
 				streamIfs = append(streamIfs, edgeWhere(ifi, false))
 			}
 		})
